@@ -102,7 +102,7 @@ PROPS = {
             'utils::merkle_root and Block::compute_merkle_root are under contract in unit merkle (level loop, odd-level duplication, iteration to one hash == merkle_spec of the txids in block order); the three iterator expressions inside them are idioms with ASSUMED contracts: I25 chunks(2).filter(len==2).map(hash of the pair).collect(), I26 [&a[..],&b[..]].concat(), I27 iter().map(|tx| tx.hash).collect() -- replayed on the real code by the bounded Kani harnesses utils_merkle_root_* (thorough tier) and lane N; unit chain uses compute_merkle_root through that contract',
             'SHA-256d collision resistance (soundness clause "any bit flip fails") is a cryptographic assumption, not a contract',
             'ChainIndex::new retains the record of height start-1: proved in unit chainindex (C02,C09:trimmed_index_keeps_start_minus_1_to_max_height)',
-            'genesis hash constants per coin: lane K table check',
+            'genesis hash constants per coin: lane N suite c09_published_genesis_hashes (complete over the eight coins; seven values written down independently of the repository, noteblockchain pinned)',
             'process::exit(1) on Err happens before any further on_block/on_complete (unit driver: C02:err_means_no_completion)',
         ],
     },
